@@ -537,10 +537,13 @@ Lemma region_index_end : forall l x i,
   (forall e, In e l -> overlap (rloc x) (rloc e) = false /\ lt_loc (rloc x) (rloc e) = false) ->
   region_index l x i = Ok (i + length l)%nat.
 Proof.
-  induction l as [|e r IH]; intros x i H.
-  - cbn [region_index length]. f_equal. lia.
-  - cbn [region_index]. destruct (H e (or_introl eq_refl)) as [H1 H2]. rewrite H1, H2.
-    rewrite IH; [cbn [length]; f_equal; lia|]. intros e' He'. apply H. right. assumption.
+  intros l x i H. unfold region_index.
+  replace (existsb (fun e => overlap (rloc x) (rloc e)) l) with false.
+  - f_equal. revert i. induction l as [|e r IH]; intros i; cbn [region_pos length]; [lia|].
+    destruct (H e (or_introl eq_refl)) as [_ H2]. rewrite H2.
+    rewrite IH; [lia|]. intros e' He'. apply H. right. assumption.
+  - symmetry. destruct (existsb (fun e => overlap (rloc x) (rloc e)) l) eqn:E; [|reflexivity].
+    apply existsb_exists in E. destruct E as (e & He & Ho). destruct (H e He) as [H1 _]. congruence.
 Qed.
 
 Lemma regns_sorted_app_inv : forall a x r, regns_sorted (a ++ x :: r) = true ->
